@@ -227,6 +227,26 @@ func c03Run(c *ev.Ctx) {
 		forced = append(forced, hx.Op{K: "hardlink", Path: "/deepest", Target: p})
 		nops += len(forced)
 		c.Count("histories_with_deep_chain", 1)
+	} else if r.Chance(1, 12) {
+		// one group (or the root) given 30-40 children with names of two or three bytes: its 32
+		// symbol table entries run out long before its name heap does, which the random
+		// histories above (at most 40 names over many groups) practically never reach
+		parent := ""
+		if r.Bool() {
+			parent = "/full"
+			forced = append(forced, hx.Op{K: "group", Path: parent})
+		}
+		for j, n := 0, r.Range(30, 40); j < n; j++ {
+			p := fmt.Sprintf("%s/s%d", parent, j)
+			if j%3 == 2 {
+				forced = append(forced, hx.Op{K: "group", Path: p})
+			} else {
+				v := hx.GenNumeric(r, "[]i32", 2, 2)
+				forced = append(forced, hx.Op{K: "create_ds", Path: p, DT: "i32", Dims: []uint64{2}, Data: &v})
+			}
+		}
+		nops += len(forced)
+		c.Count("histories_with_group_beyond_32_entries", 1)
 	}
 	for i := 0; i < nops; i++ {
 		valid := !r.Chance(1, 5)
@@ -540,7 +560,7 @@ func c03Run(c *ev.Ctx) {
 var C03 = &ev.Property{
 	ID:    "C03",
 	Level: "exploration",
-	Rule: "each case is a seeded sequence of 1-80 creations (CreateGroup, small CreateDataset, CreateHardLink to datasets/groups/ancestors, CreateSoftLink, CreateExternalLink, CreateDenseGroup with links) over a pool of 3-40 names (short, long enough to fill the 256-byte name heap, UTF-8 with two and three bytes per character; in every second history 2-6 more names that are a proper prefix or an extension of another name), depth up to 6 (one history in sixteen starts with a chain of 40-140 nested groups), one fifth of the requests deliberately invalid (existing name, missing parent, relative/empty path, a path through a \"..\" or \".\" component that is no member, missing link target), one fifth of the histories filling one group towards its 32-entry capacity; a tree model decides for every request whether it must succeed, must fail, or sits at a documented capacity limit; after Close and reopen the walked tree (paths, kinds, no duplicate names, hard-linked datasets at the same address) is compared with the model expanded through hard links. " +
+	Rule: "each case is a seeded sequence of 1-80 creations (CreateGroup, small CreateDataset, CreateHardLink to datasets/groups/ancestors, CreateSoftLink, CreateExternalLink, CreateDenseGroup with links) over a pool of 3-40 names (short, long enough to fill the 256-byte name heap, UTF-8 with two and three bytes per character; in every second history 2-6 more names that are a proper prefix or an extension of another name), depth up to 6 (one history in sixteen starts with a chain of 40-140 nested groups), one fifth of the requests deliberately invalid (existing name, missing parent, relative/empty path, a path through a \"..\" or \".\" component that is no member, missing link target), one fifth of the histories filling groups towards their 32-entry capacity, one in twelve giving one group (or the root) 30-40 children with names of two or three bytes so that the 32 entries run out before the name heap; a tree model decides for every request whether it must succeed, must fail, or sits at a documented capacity limit; after Close and reopen the walked tree (paths, kinds, no duplicate names, hard-linked datasets at the same address) is compared with the model expanded through hard links. " +
 		"non-trivial: >=2 operations; distinct = (superblock, ops/10, nodes/5, op kinds used, ancestor link, capacity edge, fill).",
 	Assumptions: []string{
 		"documented capacity limits (32 entries, 256-byte name heap) make a refusal legitimate ('either'); below 24 entries and with heap room a valid creation must succeed",
